@@ -8,7 +8,7 @@
    as the inner loop leaves it; the outer loop then continues on that tail.  The elements before i
    are never touched again.  [isort_idx] is the same double loop written with indices and
    nth/upd over the whole list (the literal reading); both are extracted and compared with the
-   real code, and proved equal in SortProofs.v. *)
+   real code, and proved equal in SortProofs.v (isort_idx_eq). *)
 From Coq Require Import List Arith Bool.
 Import ListNotations.
 
